@@ -40,13 +40,13 @@ var c07Forms = []string{"w1", "w2", "w4", "w8", "indef", "min"}
 // containers lists the array/map nodes (and, optionally, other nodes) with their paths.
 type pathNode struct {
 	path string
-	n    *cnode
+	n    *bnode
 }
 
-func collect(root *cnode, maxDepth int, pred func(*cnode) bool) []pathNode {
+func collect(root *bnode, maxDepth int, pred func(*bnode) bool) []pathNode {
 	var out []pathNode
-	var rec func(n *cnode, path string, d int)
-	rec = func(n *cnode, path string, d int) {
+	var rec func(n *bnode, path string, d int)
+	rec = func(n *bnode, path string, d int) {
 		if pred(n) {
 			out = append(out, pathNode{path, n})
 		}
@@ -65,10 +65,10 @@ func collect(root *cnode, maxDepth int, pred func(*cnode) bool) []pathNode {
 	return out
 }
 
-func isContainer(n *cnode) bool { return n.major == 4 || n.major == 5 }
+func isContainer(n *bnode) bool { return n.major == 4 || n.major == 5 }
 
 // c07Block re-encodes fixture `era` after applying the form vector; returns op line.
-func c07Op(era string, root *cnode, desc []string) string {
+func c07Op(era string, root *bnode, desc []string) string {
 	d := strings.Join(desc, ",")
 	if d == "" {
 		d = "orig"
@@ -145,7 +145,7 @@ func genC07(r *Rand, n int, tier string, emit func(string)) {
 			desc = append(desc, fmt.Sprintf("all(d%d):%s", depth, form))
 		default: // non-minimal integers (map keys, counts) and strings
 			depth := Pick(r, 3, 4, 5, 6)
-			cs := collect(root, depth, func(n *cnode) bool { return n.major <= 3 })
+			cs := collect(root, depth, func(n *bnode) bool { return n.major <= 3 })
 			k := 1 + r.Intn(6)
 			for i := 0; i < k && len(cs) > 0; i++ {
 				c := cs[r.Intn(len(cs))]
